@@ -36,7 +36,7 @@ var wordPool = []string{
 var strValPool = []string{
 	"foo", "bar", "hello", "x", "list", "run", "help", "v", "verbose", "true", "false",
 	"-", "-x", "--x", "--", "-1", "--name=v", "-abc", "---",
-	"a=b", "k=a=b", "=", "==", "=x", "x=", "a b", " lead", "trail ", "a\nb", "\n", "a\r\nb", "a\tb",
+	"a=b", "k=a=b", "=", "==", "=x", "x=", ":x", "::", ":memory:", "=:x", "a b", " lead", "trail ", "a\nb", "\n", "a\r\nb", "a\tb",
 	"é", "日本語", "\xff", "a\xffb", "\x00", strings.Repeat("long", 50),
 	"1", "0", "3.5", "1..3", "1e3", "NaN",
 }
